@@ -184,4 +184,22 @@ Section ArchiverProofs.
     archive tid g its = Some r ->
     count_sends t i (r_sent r) = if ghas g t i then 0 else count_sends t i (r_all r).
   Proof. intro A. rewrite (sent_is_filter_lemma g its r A). apply count_sends_filter. Qed.
+  (* the chunk-level view: what the archiver hands over for one file is `file_sends` of its chunks *)
+  Lemma offer_chunks_sent g cs : forall a,
+    a_sent (offer_chunks g a cs) =
+    a_sent a ++ map (fun c => (Data, c)) (filter (fun c => gate Data (ghas g Data c)) cs).
+  Proof.
+    unfold offer_chunks. induction cs as [|c cs IH]; intro a; cbn [fold_left filter map].
+    - rewrite app_nil_r. reflexivity.
+    - rewrite IH. unfold offer. cbn [a_sent]. rewrite <- app_assoc. f_equal.
+      destruct (gate Data (ghas g Data c)); reflexivity.
+  Qed.
+
+  Lemma file_step_sends_lemma g a nm m (h : bytes -> id) (chunks : list bytes) a' :
+    astep tid g a (Other nm m (map h chunks)) = Some a' ->
+    a_sent a' = a_sent a ++ map (fun c => (Data, c)) (file_sends h g chunks).
+  Proof.
+    cbn [astep]. intro E. injection E as <-. unfold set_tree. cbn [a_sent].
+    rewrite offer_chunks_sent. reflexivity.
+  Qed.
 End ArchiverProofs.
